@@ -310,8 +310,8 @@ type VerifSimApp struct {
 	ChainCfg *configs.ChainConfig
 	EvPool   *evidence.Pool
 	height   uint64
-	// ValScript: height -> full validator list the application reports after executing that height
-	// (nil / missing = no change).
+	// ValScript: height -> full validator list the application reports after executing that height and every later
+	// one, until another entry takes over (before the first entry: no report).
 	ValScript map[uint64][]*types.Validator
 	// TxScript: (height) -> transactions a proposer includes.
 	TxScript  func(height uint64, proposer common.Address) []*types.Transaction
@@ -396,8 +396,16 @@ func (a *VerifSimApp) CommitAndValidateBlockTxs(block *types.Block, lastCommit s
 		return nil, common.Hash{}, err
 	}
 	a.Applied = append(a.Applied, VerifCommitRecord{Height: block.Height(), BlockID: types.BlockID{Hash: block.Hash()}, Block: block})
+	// like the staking application, the simulated one reports the FULL validator list after every block once it
+	// has something to report: the list scripted for the latest height <= this one
 	var vals []*types.Validator
-	for _, v := range a.ValScript[block.Height()] {
+	latest := uint64(0)
+	for sh := range a.ValScript {
+		if sh <= block.Height() && sh > latest {
+			latest = sh
+		}
+	}
+	for _, v := range a.ValScript[latest] {
 		vals = append(vals, types.NewValidator(v.Address, v.VotingPower))
 	}
 	return vals, root, nil
